@@ -361,17 +361,27 @@ func (m *Muxer) Accept() (Tube, error) {
 // readMsg reads a new packet from the underlying MsgConn. It then sets the timeout
 // so that future calls to readMsg will timeout appropriately.
 func (m *Muxer) readMsg() (*frame, error) {
-	_, err := m.underlying.ReadMsg(m.readBuf)
-	if err != nil {
-		return nil, err
-	}
+	for {
+		n, err := m.underlying.ReadMsg(m.readBuf)
+		if err != nil {
+			return nil, err
+		}
 
-	// Set timeout
-	if m.timeout != 0 {
-		m.underlying.SetReadDeadline(time.Now().Add(m.timeout))
-	}
-	return fromBytes(m.readBuf)
+		// Set timeout
+		if m.timeout != 0 {
+			m.underlying.SetReadDeadline(time.Now().Add(m.timeout))
+		}
 
+		// Only the bytes of this datagram belong to the frame. A frame that is
+		// shorter than its header or than its own length field is dropped; it
+		// must not take the muxer (and every other tube) down with it.
+		frame, err := fromBytes(m.readBuf[:n])
+		if err != nil {
+			m.log.Warnf("dropping malformed frame: %s", err)
+			continue
+		}
+		return frame, nil
+	}
 }
 
 // sender accepts frames from the Muxer queues and writes them synchronously to
